@@ -783,6 +783,23 @@ def r_selector(ctx, rule='P-SELECT'):
 
 
 # --------------------------------------------------------------------------- worklist / remainder (C14 Q1-Q2, C15)
+def worklist_drivers(f, selector_names):
+    """calls that pick the next over-full bucket id from a worklist bitmap (`select(0)` / `min()`) in a function that
+    also runs the batch selector"""
+    if not any(x.callee in selector_names for x in f.calls()):
+        return []
+    out = []
+    for c in f.calls():
+        if c.args and root(c.arg_term(0))[0] in ('arg', 'var', 'phi'):
+            if (c.callee.endswith('RoaringBitmap>::select') and const_eval(c.arg_term(1)) == 0) or c.callee.endswith('RoaringBitmap>::min'):
+                r = root(c.arg_term(0))
+                if r[0] == 'arg' and f.local_ty(r[1]).startswith('&'):
+                    continue
+                if any(c.bb in paths.natural_loop(f, h) for h in f.dominators().get(c.bb, ())):
+                    out.append(c)
+    return out
+
+
 def r_worklist(ctx, rule='Q-WORKLIST'):
     F = ctx.F
     sels = selector(F)
@@ -831,11 +848,12 @@ def r_worklist(ctx, rule='Q-WORKLIST'):
     for f in F.lib_fns():
         if not f.path.startswith('writer::Writer'):
             continue
-        drv = [c for c in f.calls() if c.callee.endswith('RoaringBitmap>::select') and const_eval(c.arg_term(1)) == 0 and root(c.arg_term(0))[0] in ('arg', 'var', 'phi')
-               and any(x.callee in names for x in f.calls())]
+        drv = worklist_drivers(f, names)
         for sel in drv:
             wl = root(sel.arg_term(0))
-            rems = [c for c in f.calls() if c.callee.endswith('RoaringBitmap>::remove_smallest') and root(c.arg_term(0)) == wl and const_eval(c.arg_term(1)) == 1]
+            rems = [c for c in f.calls() if len(c.args) >= 2 and root(c.arg_term(0)) == wl and (
+                (c.callee.endswith('RoaringBitmap>::remove_smallest') and const_eval(c.arg_term(1)) == 1 and sel.callee.endswith(('select', '::min'))) or
+                (c.callee.endswith('RoaringBitmap>::remove') and paths.mentions_call(c.arg_term(1), sel.bb)))]
             good = bool(rems) and loop_every_iteration(f, sel, rems[0].bb)
             if good:
                 # the id removed is the id examined: nothing is added to the worklist between select(0) and remove_smallest(1)
@@ -1096,8 +1114,7 @@ def r_drain(ctx, rule='R-DRAIN'):
     if not ctx.need(be is not None, rule, 'build entry'):
         return
     names = [s.path for s in selector(F)]
-    wl = [g for g in F.lib_fns() if g.path.startswith('writer::Writer') and any(c.callee.endswith('remove_smallest') for c in g.calls()) and any(c.callee in names for c in g.calls())
-          and any(c.callee.endswith('RoaringBitmap>::select') for c in g.calls())]
+    wl = [g for g in F.lib_fns() if g.path.startswith('writer::Writer') and worklist_drivers(g, names)]
     if not ctx.need(len(wl) >= 1, rule, 'worklist loop function'):
         return
     calls = [c for c in be.calls() if c.callee in [g.path for g in wl]]
@@ -1156,7 +1173,21 @@ def r_tree_count(ctx, rule='R-NTREES'):
             subs = [x for x in g.calls() if x.callee.endswith('::saturating_sub')]
             rm = [x for x in g.calls() if x.callee.endswith(('::swap_remove', '::remove', '::pop'))]
             dt = [x for x in g.calls() if x.callee.startswith('writer::Writer') and x.callee != g.path]
-            okk = bool(subs) and bool(rm) and bool(dt) and any('roots' in show(x.arg_term(0)) and 'target' in show(x.arg_term(1)) for x in subs)
+            bound_a = bool(subs) and any('roots' in show(x.arg_term(0)) and 'target' in show(x.arg_term(1)) for x in subs)
+            bound_b = False
+            for b0 in g.live_blocks():
+                for x0 in g.succ(b0):
+                    e = paths.edge_cond(g, b0, x0)
+                    if e and e[0] == 'bool':
+                        c0 = strip(e[1])
+                        if c0[0] == 'binop' and c0[1] in ('Gt', 'Lt', 'Ge', 'Le'):
+                            txt = (show(c0[2]), show(c0[3]))
+                            if any('len(' in t and 'roots' in t for t in txt) and any('target' in t for t in txt):
+                                # `roots.len() > target` keeps looping (or its mirrored spelling)
+                                keep = (c0[1] == 'Gt' and 'roots' in txt[0]) or (c0[1] == 'Lt' and 'roots' in txt[1])
+                                if keep and e[2] and rm and rm[0].bb in g.reachable(x0):
+                                    bound_b = True
+            okk = (bound_a or bound_b) and bool(rm) and bool(dt)
             okk = okk and all(paths.mentions_call(x.arg_term(len(x.args) - 1), rm[0].bb) for x in dt if 'delete_tree' in x.callee or len(x.args) == 3)
             if okk:
                 tree_dels = [x for x in dt if paths.mentions_call(x.arg_term(len(x.args) - 1), rm[0].bb)]
